@@ -52,7 +52,14 @@ func fragmentingFileNamer() fileNamer {
 	return fileNamerFunc(fragmentFileName)
 }
 
+// emptyKeyName is the file name of the empty key, whose encoding would be the
+// empty string; '=' is not part of the unpadded base64url alphabet.
+const emptyKeyName = "="
+
 func fragmentFileName(key string) string {
+	if key == "" {
+		return emptyKeyName
+	}
 	encoded := base64.RawURLEncoding.EncodeToString([]byte(key))
 	if len(encoded) <= 255 { // Common filesystem filename limit
 		return encoded
@@ -84,6 +91,9 @@ var filepathSeparatorReplacer = strings.NewReplacer(
 )
 
 func fragmentedFileNameToKey(name string) (string, error) {
+	if name == emptyKeyName {
+		return "", nil
+	}
 	// Check if the name contains path separators (i.e., is fragmented)
 	if strings.ContainsRune(name, filepath.Separator) {
 		// Handle fragmented path
